@@ -171,10 +171,20 @@ struct World {
     futex_wake(&s->state);
   }
   bool proc_alive(pid_t pid) { return pid > 0 && kill(pid, 0) == 0; }
+  // CPU time (user + system, milliseconds) a real process has used so far; -1 if unknown
+  static long cpu_ms_of(pid_t pid) {
+    if (pid <= 0) return 0;
+    char path[64]; snprintf(path, sizeof path, "/proc/%d/stat", (int) pid); FILE *f = fopen(path, "r"); if (!f) return 0;
+    char buf[1024]; size_t n = fread(buf, 1, sizeof buf - 1, f); fclose(f); buf[n] = 0;
+    char *rp = strrchr(buf, ')'); if (!rp) return 0;
+    unsigned long ut = 0, st = 0; // fields 14 and 15; after ")" come state(3) ... utime is the 12th token after the state
+    int field = 2; char *t = strtok(rp + 1, " "); while (t) { field++; if (field == 14) ut = strtoul(t, 0, 10); if (field == 15) { st = strtoul(t, 0, 10); break; } t = strtok(0, " "); }
+    return (long) ((ut + st) * 1000 / sysconf(_SC_CLK_TCK));
+  }
   // wait until the process in slot has posted its next request
   void await_request(Proc &p) {
     vk_slot *s = &shm->slot[p.slot];
-    int spins = 0; long waited_ms = 0;
+    int spins = 0; long waited_ms = 0; long cpu_at_start = -1;
     for (;;) {
       if (__atomic_load_n(&s->state, __ATOMIC_SEQ_CST) == VK_S_REQ) break;
       if (++spins < 2) { continue; }
@@ -183,7 +193,11 @@ struct World {
       struct timespec ts = {0, 5 * 1000 * 1000};
       syscall(SYS_futex, &shm->ctl_futex, FUTEX_WAIT, v, &ts, 0, 0);
       waited_ms += 5;
-      if (waited_ms > hang_ms) {
+      if (cpu_at_start < 0 && waited_ms >= 1000) cpu_at_start = cpu_ms_of(p.realpid);   // measured from the first second of waiting on
+      if (waited_ms > hang_ms && waited_ms % 1000 == 0 && cpu_ms_of(p.realpid) - cpu_at_start < hang_ms / 2) {
+        // not computing: the process is starved by the load on this machine (or stopped); that is the harness's problem, never a verdict
+        if (waited_ms > 600000) throw HarnessError{"simulated process " + p.name + " made no request for 600 s without using the CPU (slot " + std::to_string(p.slot) + ")"};
+      } else if (waited_ms > hang_ms && waited_ms % 1000 == 0) {
         // the program computes (or sleeps in a call the model does not know) without ever asking the kernel for anything: every program of the
         // suite is I/O bound, so this is an endless loop in user space
         std::string prog = p.name.substr(p.name.rfind('/') == std::string::npos ? 0 : p.name.rfind('/') + 1);
